@@ -1429,7 +1429,7 @@ pub fn run(o: &Opts, rec: &mut Recorder) {
 // in/around the zone, twice: raw (DO set) and through the real validator `DnssecDnsHandle` whose trust
 // anchor is the zone key.  Completeness: the validator must accept (Ok) what the server sends —
 // negative and wildcard responses (the property's clause) and plain positive answers (repaired in
-// /repo a0f75fc: the caller no longer evaluates the QNAME NSEC3 the server attaches to them as a denial).  The NSEC3 records / SOA name / rcode / answers of each raw response are also handed
+// /repo a0f75fc, 1223dc5: the caller no longer evaluates the QNAME NSEC3 the server attaches to them as a denial).  The NSEC3 records / SOA name / rcode / answers of each raw response are also handed
 // to `verify_nsec3` exactly as `verify_response` selects them and recorded as an ordinary `v` case, so
 // the model and the soundness oracle see the server's own proofs as well.
 mod e2e {
@@ -1455,8 +1455,6 @@ mod e2e {
     use hickory_server::zone_handler::{AxfrPolicy, Catalog, MessageResponse, ZoneType};
 
     use super::*;
-
-    pub const CL_CNAME: &str = "cname-answer-rejected-because-of-attached-qname-nsec3";
 
     #[derive(Clone, Default)]
     struct Capture(Arc<Mutex<Vec<u8>>>);
@@ -1607,9 +1605,18 @@ mod e2e {
             }
             if zi == 0 {
                 z.opt_out = false;
+                // fixed shape in every tier: a CNAME owner, a delegation with and without DS, a wildcard and a
+                // name with two types among the queried names (the quick tier's random zones missed CNAME owners once)
+                z.names.insert(rel_name(&apex, &[b"a"]), [T_CNAME].into_iter().collect());
+                z.names.insert(rel_name(&apex, &[b"b"]), [T_A, T_TXT].into_iter().collect());
+                z.names.insert(rel_name(&apex, &[b"a", b"b"]), [T_CNAME].into_iter().collect());
+                z.names.insert(rel_name(&apex, &[b"*", b"b"]), [T_A].into_iter().collect());
             }
             if zi == 1 {
                 z.opt_out = true;
+                z.names.insert(rel_name(&apex, &[b"b"]), [T_CNAME].into_iter().collect());
+                z.names.insert(rel_name(&apex, &[b"a"]), [T_NS].into_iter().collect());
+                z.names.insert(rel_name(&apex, &[b"a", b"b"]), [T_NS, T_DS].into_iter().collect());
             }
             let Some(srv) = build(&z) else {
                 rec.stat("e2e.zone-build-failed");
@@ -1709,17 +1716,7 @@ mod e2e {
                     q,
                     t,
                     format!("completeness: DnssecDnsHandle rejects the server's plain positive answer for {q} type {t} ({} NSEC3 attached): {e} — zone {}", nsec3s.len(), describe_spec(z)),
-                    // narrow class from the input: the answer is a CNAME RRset at QNAME for another QTYPE
-                    // (the caller's exemption of /repo a0f75fc covers RRsets of the query type only)
-                    if t != T_CNAME
-                        && !nsec3s.is_empty()
-                        && resp.answers.iter().any(|rr| rr.name == *q && rr.record_type() == RecordType::CNAME)
-                        && !resp.answers.iter().any(|rr| rr.name == *q && u16::from(rr.record_type()) == t)
-                    {
-                        CL_CNAME
-                    } else {
-                        ""
-                    },
+                    "",
                 );
             }
         }
